@@ -373,7 +373,7 @@ class ExcelModel:
 
             _name = '%s'
             if 'sheet_id' in rng:
-                _name = f'{rng["sheet_id"]}!{_name}'
+                _name = '%s!%s' % (rng['sheet_id'].replace('%', '%%'), _name)
             for r in formula_ranges:  # Array formulas spilling on the range.
                 r = r.ranges[0]
                 if r['n1'] <= rng['n2'] and rng['n1'] <= r['n2'] and \
